@@ -382,6 +382,15 @@ def install_spec_builtins(ip):
         return be_value(ip, v.t)
     B["be_value"] = Builtin("be_value", _be_value)
 
+    def _run_coro(ip, a, k):
+        """await a coroutine object to completion (sequential; suspension points inside are yield events)"""
+        from .values import CoroVal
+        v = a[0]
+        if isinstance(v, CoroVal):
+            return ip.call_function(v.f, v.self_val, v.args, v.kwargs, run_async=True)
+        return v
+    B["run_coro"] = Builtin("run_coro", _run_coro)
+
     B["resolve_class"] = Builtin("resolve_class", lambda ip, a, k: ip.resolve_class(a[0]))
     B["resolve_module"] = Builtin("resolve_module", lambda ip, a, k: ip.src.load_path(a[0]))
 
